@@ -13,8 +13,9 @@ Open Scope Z_scope.
 
 (* C42_prefix_only.  For EVERY authenticated-encryption primitive (body type B, seal, open) such that
      - open inverts seal (open_seal),
-     - a sealed body opens only under the sequence number, record type and version it was sealed with
-       (open_bind: the MAC / AEAD additional data cover seq, type, version),
+     - a sealed body opens only under the sequence number and record type it was sealed with (open_bind:
+       the MAC / AEAD additional data cover seq and type; the version is NOT assumed to be covered - the
+       SSLv3 MAC does not cover it - readRecord's comparison with c.vers is what rejects a changed version),
    for every list S of plaintext records (type, payload) that the sender protected (payloads are bytes,
    at most 16384 long), and for EVERY record stream l (with `trail` bytes of an incomplete header at its
    end) in which each record body is either a body the sender sealed or one that opens under nothing
@@ -32,7 +33,7 @@ Theorem C42_prefix_only :
   forall (B : Type) (seal : Z -> Z -> Z -> list Z -> B) (open : Z -> Z -> Z -> B -> option (list Z))
          (c : cfg) (S : list (Z * list Z)),
     (forall s t v p, open s t v (seal s t v p) = Some p) ->
-    (forall s t v s' t' v' p, open s t v (seal s' t' v' p) <> None -> s = s' /\ t = t' /\ v = v') ->
+    (forall s t v s' t' v' p, open s t v (seal s' t' v' p) <> None -> s = s' /\ t = t') ->
     Forall (fun tp => wf_bytes (snd tp) = true /\ blen (snd tp) <= maxPlaintext) S ->
     forall l trail d st n,
       Forall (authentic B seal open c S) l ->
@@ -58,7 +59,7 @@ Print Assumptions C42_sender_data.
    first n, and if the adversary changed anything the receiver reads (relevant) other than cutting off
    a tail at a record boundary (tail_dropped, finding 1) Read does not end with io.EOF. *)
 Theorem C42_model_prefix_and_detection : forall x w trail d st n,
-  wf_C42 x = true -> tampered_wire x = (w, trail) ->
+  wf_base x = true -> tampered_wire x = (w, trail) ->
   receive sbody sopen (i_cfg x) w trail = (d, st, n) ->
   is_prefix d (sent_bytes (i_writes x)) = true /\
   0 <= n /\ firstn (Z.to_nat n) w = firstn (Z.to_nat n) (orig_wire x) /\
@@ -69,25 +70,10 @@ Print Assumptions C42_model_prefix_and_detection.
 (* The property predicate that the harness evaluates on the implementation holds of the model on every
    tampered input outside finding class 1. *)
 Theorem C42_prop_of_model_tampered_partial : forall i x,
-  dec_C42 i = Some x -> wf_C42 x = true -> relevant x = true -> kf_C42 i = 0 ->
+  dec_C42 i = Some x -> wf_base x = true -> relevant x = true -> kf_C42 i = 0 ->
   prop_C42 i (run_C42 i) = true.
 Proof. exact prop_C42_of_model_tampered. Qed.
 Print Assumptions C42_prop_of_model_tampered_partial.
-
-(* Completeness (the prefix can be everything): for every suite shape that exists in cipher_suites.go
-   (cfg_ok: CBC block size 8 or 16, explicit IV empty or one block, MAC + IV + AEAD overhead <= 2000) the
-   untouched stream is delivered completely, Read ends with io.EOF and the final sequence number is the
-   number of records; hence prop_C42 holds of the model on untampered inputs as well. *)
-Theorem C42_model_untampered : forall x, wf_C42 x = true -> cfg_ok (i_cfg x) = true ->
-  receive sbody sopen (i_cfg x) (orig_wire x) 0 =
-  (sent_bytes (i_writes x), 1, Z.of_nat (length (S_of x))).
-Proof. exact model_untampered. Qed.
-Print Assumptions C42_model_untampered.
-Theorem C42_prop_of_model_untampered : forall i x,
-  dec_C42 i = Some x -> wf_C42 x = true -> cfg_ok (i_cfg x) = true -> i_script x = [] -> i_cut x < 0 ->
-  prop_C42 i (run_C42 i) = true /\ kf_C42 i = 0.
-Proof. exact prop_C42_of_model_untampered. Qed.
-Print Assumptions C42_prop_of_model_untampered.
 
 (* Finding 1 (refutation of "every tampering is detected as an error"): dropping the last application
    record and the close_notify is reported as plain io.EOF. *)
